@@ -65,7 +65,7 @@ with open(os.path.join(OUT, "README.md"), "w") as fh:
     fh.write("# Seeded defects and which checks catch them\n\nEach directory: `patch.diff` (applies to /repo HEAD at the time of validation), `demo/` (fails with the patch, "
              "passes without), `NOTES.md` (the author's description), `meta.json` (what was run, what each check reported).\n\n"
              "| seeded | property | check results (V = VIOLATION with a concrete failing input, V* = VIOLATION no-failing-input-found, - = not detected by that check) |\n|---|---|---|\n")
-    for sid, prop, checks in sorted(rows):
+    for sid, prop, checks in sorted(rows, key=lambda r: (r[0], r[1])):
         cells = []
         for k, v in sorted(checks.items()):
             s = "V" if v["concrete_failing_input"] else ("V*" if v["result"] == "VIOLATION" else "-")
